@@ -64,6 +64,7 @@ func (p *Parser) Parse(source string) (Node, error) {
 	var err error
 
 	// Use zero allocation tokenizer for optimal performance
+	vhook("tokget")
 	tokenizer := GetTokenizer(p.source, 0)
 
 	// Use optimized version for larger templates
@@ -85,6 +86,7 @@ func (p *Parser) Parse(source string) (Node, error) {
 	// that gets it from the pool overwrites the buffer), and the buffer is not
 	// handed to a second pool
 	defer func() {
+		vhook("tokput")
 		p.tokens = nil
 		ReleaseTokenizer(tokenizer)
 	}()
@@ -97,6 +99,7 @@ func (p *Parser) Parse(source string) (Node, error) {
 	// Whitespace control has already been applied by the tokenizer
 
 	// Parse tokens into nodes
+	vhook("readtokens")
 	nodes, err := p.parseOuterTemplate()
 	if err != nil {
 		return nil, fmt.Errorf("parsing error: %w", err)
